@@ -20,6 +20,9 @@ type gen struct {
 	stateful bool
 	// smallInts: no integer literals beyond 2^53 (JSON consumers lose them, reported separately)
 	smallInts bool
+	// wild: unary operators and regex literals may appear anywhere an operand may (hostile but
+	// accepted by the parser), e.g. "s1" =~ -/re/, !'abc', -TRUE
+	wild bool
 }
 
 var intLits = []string{"0", "1", "2", "3", "7", "10", "100", "9223372036854775807", "4611686018427387904"}
@@ -89,6 +92,22 @@ func (g *gen) binop(l, op, r string) string {
 
 // expr generates an expression intended to have type t (unless the ill-typing dice say no).
 func (g *gen) expr(t rtype, depth int) string {
+	if g.wild && g.r.Chance(0.06) {
+		inner := g.expr(t, depth-1)
+		if g.r.Chance(0.3) {
+			inner = g.lit([]rtype{tRegex, tString, tBool, tDur, tInt}[g.r.Intn(5)])
+		}
+		return g.r.Pick([]string{"-", "!", "-", "--", "!-"}) + inner
+	}
+	if g.wild && g.r.Chance(0.03) {
+		// wrong arity, also far beyond what any built-in takes
+		n := g.r.Range(0, 7)
+		var as []string
+		for i := 0; i < n; i++ {
+			as = append(as, g.lit([]rtype{tFloat, tInt, tString, tBool}[g.r.Intn(4)]))
+		}
+		return g.r.Pick([]string{"abs", "strLength", "if", "count", "sigma", "duration", "bool", "strReplace", "unixNano", "undefinedFunc"}) + "(" + strings.Join(as, ", ") + ")"
+	}
 	if g.r.Chance(g.illRate) {
 		// deliberately ill-typed: an operand of another type
 		o := valueTypes[g.r.Intn(len(valueTypes))]
@@ -374,4 +393,16 @@ func EvalOutcome(e interface {
 		return "error"
 	}
 	return valString(v)
+}
+
+// GenLambdaWild generates hostile-but-parsable lambdas: ill-typed operands, unary operators on
+// anything (also regex literals), missing-prone references.
+func GenLambdaWild(r *core.Rng, kind string, depth int) string {
+	g := &gen{r: r, usedStat: map[string]bool{}, illRate: 0.15, stateful: r.Chance(0.2), smallInts: false, wild: true}
+	t := tBool
+	switch kind {
+	case "any":
+		t = valueTypes[r.Intn(len(valueTypes))]
+	}
+	return g.expr(t, depth)
 }
